@@ -248,13 +248,15 @@ ADDED3 = {
 
 # rules of rounds 6 and 7 and of the defects repaired after them (DESIGN.md section 12, 13)
 ADDED5 = {
+    'C03': 'Round 9: types are instantiated in the pattern, never in a term the replacement worker of Term.subst has produced (I11).',
+    'C12': 'Round 9: the import order of a theory is asked for only after its own cache entry was re-validated (L13, dominance).',
     'C01': 'Round 8: a derived sequent is accepted only if each of its hypotheses is among the stated ones (K19, shared with P3).',
     'C06': 'Round 8: every Z3 variable made at the type of a binder is constrained to be non-negative under the natural-number test of its branch (Z12).',
     'C07': 'Round 8: every constant built with an explicit type is unified with the type the theory declares for it, parameters of the builder taken as fixed (W9).',
     'C08': 'Round 8: classes of type variables are joined only through unify, which looks the representatives up first (U11, who-may-call).',
     'C09': 'Round 8: the instantiation is asked about v.name only for a v known to be schematic (N14).',
     'C10': 'Round 8: after a part of the term was normalised, no decision looks at the part as written (V12).',
-    'C11': 'Round 8: the self-occurrence test of a definition compares with the name the head constant is built with (D12).',
+    'C11': 'Round 8: the self-occurrence test of a definition compares with the name the head constant is built with (D12). Round 9: the type variables of a constructor are parameters of the datatype (third clause of D11).',
     'C13': 'Round 8: after opening quantifiers, lines are counted from the variables opened, not from the names given (A15).',
     'C14': 'Round 8: no normal exit of a step that inserts a line is reachable without the insertion (S12).',
     'C16': 'Round 8 and repairs: a one-term constraint with coefficient zero is decided by its constant (O11); every sub-problem of branch and bound keeps all constraints of its parent (O12).',
